@@ -83,8 +83,25 @@ pub fn model_case(sc: &Value) -> Value {
     // Workflow::tree_output() indexes a map without a guard and panics for some valid shapes; the structural dump is used instead
     let tree = Value::Null;
     let dump = acts::verif::tree_dump(&w).unwrap_or_else(|e| json!({"build_err": crate::engine::classify(&e.to_string())}));
+    // the model the tree keeps is what a process row stores: a tree rebuilt from it must have the same nodes
+    let ids = |d: &Value| -> Vec<String> {
+        let mut v: Vec<String> = d["nodes"].as_array().map(|a| a.iter().filter_map(|n| n["id"].as_str().map(|x| x.to_string())).collect()).unwrap_or_default();
+        v.sort();
+        v
+    };
+    let rebuilt = match dump.get("model") {
+        Some(m) if !m.is_null() => match Workflow::from_json(&serde_json::to_string(m).unwrap()) {
+            Ok(w4) => match acts::verif::tree_dump(&w4) {
+                Ok(d4) => json!({"ids": ids(&d4), "same_ids": ids(&d4) == ids(&dump)}),
+                Err(e) => json!({"build_err": crate::engine::classify(&e.to_string())}),
+            },
+            Err(e) => json!({"parse_err": e.to_string()}),
+        },
+        _ => Value::Null,
+    };
     json!({
         "dump": dump,
+        "rebuilt": rebuilt,
         "json": j1v, "json_again": j3v, "yml_ok": yml_ok, "via_yml": j2v,
         "valid": valid.is_ok(),
         "valid_err": valid.err().map(|e| crate::engine::classify(&e.to_string())),
